@@ -97,6 +97,9 @@ func scenarios(th bool) []scenario {
 			}
 			for _, h := range histories(alphaFull, d) {
 				for _, c := range []string{"noop", "lru1", "lru2", "lruN"} {
+					if c == "lru2" && g.name != "evict" && g.name != "long" {
+						continue // two entries only matter where three different chains are in play
+					}
 					out = append(out, scenario{Class: "hist", PreDirect: pre, Clients: [][]op{h}, Cache: c, Bound: 0})
 				}
 			}
@@ -162,16 +165,13 @@ func scenarios(th bool) []scenario {
 		{[]string{"L1", "L4"}, [][]op{{rd}, {rd}, {sub("L2")}}},
 		{[]string{"L1"}, [][]op{{sub("L1r")}, {sub("P1")}, {{K: "gep", A: 0, B: 1}}}},
 	}
-	cb := 2
+	cb := 1
 	if th {
-		cb = 3
+		cb = 2
 	}
 	for _, c := range concs {
 		for _, k := range []string{"advH", "advM", "lru1", "lruN"} {
 			out = append(out, scenario{Class: "conc", PreHash: idx(c.pre), Clients: c.cl, Cache: k, Concurrent: true, Bound: cb})
-			if !th && (k == "advM" || k == "lruN") {
-				continue
-			}
 			out = append(out, scenario{Class: "conc-fault", PreHash: idx(c.pre), Clients: c.cl, Cache: k, Concurrent: true, Faults: "basic", MaxFaults: 1, Bound: cb})
 		}
 	}
